@@ -4,7 +4,7 @@ from . import agentsim as S
 PROP  = 'C07'
 KNOBS = {'max_tasks': 8, 'cancel_prob': 0.8, 'fail_share': 0.25,
          'spawn_fail_share': 0.15, 'timeout_share': 0.25, 'racy_share': 0.5,
-         'grace_share': 0.4, 'preempt': 0.03,
+         'grace_share': 0.4, 'preempt': 0.03, 'to_burst': 0.15,
          'layout': {'nodes': 2, 'agent_nodes': 0}}
 
 
